@@ -9,7 +9,9 @@
 (* the code are 0-based and are kept 0-based here (text position p is       *)
 (* t[p+1], row r of a table is tab[r+1]).  "None" is -1.                    *)
 (*                                                                         *)
-(* DEFINITION LAYER (the oracle): Transform, IsSortedSA, LcpDef, SusDef,    *)
+(* DEFINITION LAYER (the oracle): TransformWith / IsValidSA (any admissible *)
+(*   sentinel order; Transform / IsSortedSA = the code's concrete order,    *)
+(*   used for machine-layer conformance only), LcpDef, SusDef,              *)
 (*   BwtDef, LessDef, OccDef, OccPos, LongestSuffixLen, IsMEM/Smems,        *)
 (*   RevComp/FmdText, BiDef.  No algorithm: counting and quantifiers only.  *)
 (* MACHINE LAYER (shaped like the code; the state variables and actions     *)
@@ -45,19 +47,29 @@ DenseInt(t) == /\ Len(t) >= 1 /\ t[Len(t)] = 0
                /\ \A i \in 1..(Len(t) - 1) : t[i] > 0
                /\ LET mx == SetMax(Range(t)) IN \A v \in 0..mx : v \in Range(t)
 
-(* Transform: the single consistent comparison of C03.  Sentinel occurrences *)
-(* get the ranks cnt-1, ..., 0 from left to right (so the final sentinel is  *)
-(* the smallest symbol and all sentinels are below everything else); every   *)
-(* other symbol gets (rank among the distinct text symbols) + cnt - 1.       *)
-Transform(t) ==
+(* C03 demands: a permutation of all positions, sorted under ONE consistent comparison in which   *)
+(* every sentinel occurrence is below all other symbols, the final sentinel is the smallest, and  *)
+(* the sentinel occurrences are ordered among themselves by some fixed total order -- ANY such     *)
+(* order.  An admissible order is a bijection `ord` from the sentinel positions (0-based) to       *)
+(* 0..cnt-1 with ord[n-1] = 0.  TransformWith(t, ord) is the comparison it induces: sentinel at    *)
+(* position p gets ord[p], every other symbol (rank among the distinct text symbols) + cnt - 1.    *)
+SentPositions(t) == {i - 1 : i \in {j \in 1..Len(t) : t[j] = Sentinel(t)}}
+SentOrders(t) ==
+    LET sp == SentPositions(t)  cnt == Cardinality(SentPositions(t)) IN
+    {o \in [sp -> 0..(cnt - 1)] : o[Len(t) - 1] = 0 /\ \A p, q \in sp : o[p] = o[q] => p = q}
+TransformWith(t, ord) ==
     LET n    == Len(t)
         s    == Sentinel(t)
         cnt  == SentCount(t)
         syms == Range(t)
         rank == [c \in syms |-> Cardinality({d \in syms : d < c})]     \* sentinel: rank 0
-        sp   == {i \in 1..n : t[i] = s}
-    IN  [i \in 1..n |-> IF t[i] = s THEN Cardinality({j \in sp : j > i})
-                        ELSE rank[t[i]] + cnt - 1]
+    IN  [i \in 1..n |-> IF t[i] = s THEN ord[i - 1] ELSE rank[t[i]] + cnt - 1]
+(* The order the CODE uses (machine layer, transform_text): sentinel occurrences get the ranks     *)
+(* cnt-1, ..., 0 from left to right.  It is one admissible order; conformance with it is checked   *)
+(* as machine-layer conformance (DRIFT), never as the property.                                    *)
+CodeSentOrder(t) ==
+    LET sp == SentPositions(t) IN [p \in sp |-> Cardinality({q \in sp : q > p})]
+Transform(t) == TransformWith(t, CodeSentOrder(t))
 
 \* lexicographic order of suffixes i, j (0-based starts) of the transformed text X
 RECURSIVE SufLessAt(_, _, _, _)
@@ -73,8 +85,8 @@ IsPerm(sa, n) ==
     /\ \A r \in 1..n : sa[r] \in 0..(n - 1)
     /\ Cardinality(Range(sa)) = n
 
-\* sa is THE suffix array of t: a permutation of all positions, strictly increasing
-\* under the order of Transform(t) (adjacent pairs suffice: the order is total)
+\* MACHINE-LAYER CONFORMANCE: sa is the suffix array under the code's concrete sentinel order
+\* (Transform): a permutation, strictly increasing (adjacent pairs suffice: the order is total)
 IsSortedSA(sa, t) ==
     LET n == Len(t)
         X == Eager(Transform(t))
@@ -88,6 +100,26 @@ SortedSA(t) ==
         X == Eager(Transform(t))
     IN  Eager([r \in 1..n |-> CHOOSE p \in 0..(n - 1) :
                    Cardinality({q \in 0..(n - 1) : SufLess(X, q, p)}) = r - 1])
+
+\* THE PROPERTY (C03, first clause): sa is a permutation, the final sentinel is first, the first cnt
+\* entries are exactly the sentinel positions, and sa is strictly sorted under the comparison whose
+\* sentinel order is READ OFF sa itself (row of a sentinel suffix = its rank).  Such an order exists
+\* iff sa is sorted under some admissible order, and then it is that order (MC lemma OrderLemma).
+ReadOffOrder(sa, t) == [p \in SentPositions(t) |-> (CHOOSE r \in 1..SentCount(t) : sa[r] = p) - 1]
+IsValidSA(sa, t) ==
+    LET n == Len(t)  cnt == SentCount(t) IN
+    /\ IsPerm(sa, n)
+    /\ sa[1] = n - 1
+    /\ {sa[r] : r \in 1..cnt} = SentPositions(t)
+    /\ LET X == Eager(TransformWith(t, ReadOffOrder(sa, t))) IN
+       \A r \in 1..(n - 1) : SufLess(X, sa[r], sa[r + 1])
+\* the sorted permutation for an admissible order (cubic; MC modules only)
+SortedSAWith(t, ord) ==
+    LET n == Len(t)
+        X == Eager(TransformWith(t, ord))
+    IN  Eager([r \in 1..n |-> CHOOSE p \in 0..(n - 1) :
+                   Cardinality({q \in 0..(n - 1) : SufLess(X, q, p)}) = r - 1])
+AdmissibleSAs(t) == {SortedSAWith(t, o) : o \in SentOrders(t)}
 
 \* ------------------------------------------------------------- LCP / SUS
 RECURSIVE LcpAt(_, _, _, _)
